@@ -37,13 +37,26 @@ fn op_to_binop(op: &Operator) -> R<BinOp> {
     })
 }
 
+thread_local! {
+    /// when set, a physical Column is read the way the evaluator reads it: by index only (its name is ignored)
+    static BY_INDEX: std::cell::Cell<bool> = const { std::cell::Cell::new(false) };
+}
+
+/// `phys_to_x` with evaluator semantics for columns (index decides, the name is not compared)
+pub fn phys_to_x_by_index(e: &Arc<dyn PhysicalExpr>, schema: &Schema) -> R<X> {
+    BY_INDEX.with(|b| b.set(true));
+    let r = phys_to_x(e, schema);
+    BY_INDEX.with(|b| b.set(false));
+    r
+}
+
 pub fn phys_to_x(e: &Arc<dyn PhysicalExpr>, schema: &Schema) -> R<X> {
     if let Some(c) = e.downcast_ref::<Column>() {
         let f = match schema.fields().get(c.index()) {
             Some(f) => f,
             None => return unsup(format!("column index {} out of range", c.index())),
         };
-        if f.name() != c.name() {
+        if f.name() != c.name() && !BY_INDEX.with(|b| b.get()) {
             return unsup(format!("column {}@{} does not match schema field {}", c.name(), c.index(), f.name()));
         }
         return Ok(X::Col { name: f.name().clone(), ty: lx::dt_to_ty(f.data_type())?, nullable: f.is_nullable() });
